@@ -361,13 +361,26 @@ def srcXY (x y : String) : Src := { kind := .query, kvs := [(B "x", [B x]), (B "
 
 example : wts tyD3 (zeroFs tyD3) = true ∧ Spec.inGrammarFs tyD3 = true ∧ Spec.srcOK (srcXY "7" "7") = true := by decide
 
+def okVal : Outcome → Option Val
+  | .ok v => some v
+  | _ => none
+
+def errOf : Outcome → Option Err
+  | .err e => some e
+  | _ => none
+
 /-- both promoted fields at depth 3 are bound, the nil embedded pointer is allocated -/
-example : toObs (bind P7 Cfg.default .query (.struct tyD3) (.struct (zeroFs tyD3)) (srcXY "7" "7")) =
-    .ok (.struct [.struct [.ptr (.struct [.struct [.int 7, .uint 7]])]]) := by decide
+example : okVal (bind P7 Cfg.default .query (.struct tyD3) (.struct (zeroFs tyD3)) (srcXY "7" "7")) =
+    some (.struct [.struct [.ptr (.struct [.struct [.int 7, .uint 7]])]]) := by decide
 
 /-- `300` for the uint8 field `y`: an error naming `y`, nothing truncated -/
-example : toObs (bind P7 Cfg.default .query (.struct tyD3) (.struct (zeroFs tyD3)) (srcXY "7" "300")) =
-    .err (.bind (B "y") .conv) := by decide
+example : errOf (bind P7 Cfg.default .query (.struct tyD3) (.struct (zeroFs tyD3)) (srcXY "7" "300")) =
+    some (.bind (B "y") .conv) := by decide
+
+/-- the main theorem applies to this input -/
+example : Spec.specOK P7 Cfg.default .query tyD3 (.struct (zeroFs tyD3)) (srcXY "7" "7")
+    (toObs (bind P7 Cfg.default .query (.struct tyD3) (.struct (zeroFs tyD3)) (srcXY "7" "7"))) = true :=
+  bind_meets_spec P7 lemma_P7_sane Cfg.default .query tyD3 (zeroFs tyD3) (srcXY "7" "7") (by decide) (by decide) (by decide)
 
 example : Spec.specOK P7 Cfg.default .query tyD3 (.struct (zeroFs tyD3)) (srcXY "7" "7")
     (.ok (.struct [.struct [.ptr (.struct [.struct [.int 7, .uint 7]])]])) = true :=
